@@ -35,6 +35,8 @@ def jobs(tier):
         js.append({'name': 'tree built twice (txtpp-shaped temp target=%s)' % wb, 'harness': (H, 'h_tree'),
                    'params': {'mode': 'Build', 'second_mode': 'Build', 'inputs': ['.'], 'recursive': True, 'with_bad_temp': wb, 'compare_runs': True},
                    'max_steps': 6_000_000})
+    from . import project
+    js += project.jobs('C08', tier)
     return js
 
 
